@@ -101,7 +101,19 @@ def run_cases(ctx, n_tables, check_model):
         elif order == 'shuffled':
             ctx.rng.shuffle(pairs)
         ctx.count('tables_' + order)
-        t = interpDict(*pairs, extrapolate_low=exlo, extrapolate_high=exhi)
+        if ctx.rng.random() < 0.3:
+            # history: the table is built with other flags and used once, then the flags are set (Pump.__post_init__ and the Excel loader switch
+            # extrapolation on after construction): every later lookup follows the flags as they are now
+            t = interpDict(*pairs, extrapolate_low=ctx.rng.random() < 0.5, extrapolate_high=ctx.rng.random() < 0.5)
+            try:
+                _ = t[(keys[0] + keys[1]) / 2]
+            except IndexError:
+                pass
+            t.extrapolate_low, t.extrapolate_high = exlo, exhi
+            ctx.count('tables_flags_set_after_use')
+            pairs = pairs + [['flags set after a first lookup']]
+        else:
+            t = interpDict(*pairs, extrapolate_low=exlo, extrapolate_high=exhi)
         for q in queries(ctx.rng, keys):
             try:
                 r = ('ok', t[q])
@@ -199,7 +211,18 @@ def replay(v):
     i = v['input']
     if 'query' not in i:
         return None
-    t = interpDict(*(i.get('inserted_as') or zip(i['keys'], i['vals'])), extrapolate_low=i['extrapolate_low'], extrapolate_high=i['extrapolate_high'])
+    ins = i.get('inserted_as') or [list(x) for x in zip(i['keys'], i['vals'])]
+    late = bool(ins) and len(ins[-1]) == 1
+    if late:
+        ins = ins[:-1]
+        t = interpDict(*ins, extrapolate_low=not i['extrapolate_low'], extrapolate_high=not i['extrapolate_high'])
+        try:
+            _ = t[(i['keys'][0] + i['keys'][1]) / 2]
+        except IndexError:
+            pass
+        t.extrapolate_low, t.extrapolate_high = i['extrapolate_low'], i['extrapolate_high']
+    else:
+        t = interpDict(*ins, extrapolate_low=i['extrapolate_low'], extrapolate_high=i['extrapolate_high'])
     try:
         r = ('ok', t[i['query']])
     except IndexError:
